@@ -184,7 +184,7 @@ def run_case(spec, ctx):
                     # default barrier tolerances are amplified by the 2**degree squarings of the
                     # approximation; Gurobi is asked for a tight one (ECOS takes no parameters)
                     m.soc_solve(C.solver(sname), degree=d, display=False,
-                                params={'BarQCPConvTol': 1e-10} if sname == 'grb' else {})
+                                params={'BarQCPConvTol': 1e-10, 'TimeLimit': 30, 'Threads': 1} if sname == 'grb' else {})
             except Exception as e:
                 if 'license' in str(e):
                     ctx.count('gurobi_size_limit')
